@@ -108,6 +108,14 @@ def gen(rng, tier):
         for i in range(3 if tier == "quick" else 6):
             n += 1
             yield {"family": "bind", "kind": "bind", "bind": b, "alias": rng.randint(2, 250), "workers": rng.choice([1, 2])}
+    # lists of binds: every entry must get its own socket, in order, independent of its neighbours
+    entries = ["127.0.0.{a}:0", "[::1]:0", "unix:{tmp}/s%d.sock", "fd://bound", "fd://unbound"]
+    for i in range(30 if tier == "quick" else 300):
+        k = rng.choice([2, 2, 3, 4])
+        lst = [rng.choice(entries) for _ in range(k)]
+        if not any(e.startswith("fd://") for e in lst):
+            lst[rng.randrange(k)] = rng.choice(["fd://bound", "fd://unbound"])
+        yield {"family": "bind-list", "kind": "bind-list", "binds": lst, "alias": rng.randint(2, 250)}
     for i in range(40 if tier == "quick" else 200):
         yield {"family": "headers", "kind": "headers", "date": rng.random() < 0.7, "server": rng.random() < 0.7,
                "alt": rng.choice([[], ['h3=":443"; ma=3600'], ['h3=":443"', 'h3-29=":443"']]), "proto": rng.choice(["h11", "h2", "h3"])}
@@ -285,6 +293,8 @@ def run_one(case, tally):
                                  "detail": "config file sets %s=%r; command line with only %s given: %s is now %s" % (key, value, ofl, key, got[key])})
         elif kind == "bind":
             findings += _check_bind(case, tmp, tally)
+        elif kind == "bind-list":
+            findings += _check_bind_list(case, tmp, tally)
         elif kind == "headers":
             cfg = Config()
             cfg.include_date_header = case["date"]
@@ -441,6 +451,85 @@ def _check_bind(case, tmp, tally):
         for s in holder:
             try:
                 s.close()
+            except Exception:
+                pass
+    return out
+
+
+def _check_bind_list(case, tmp, tally):
+    from hypercorn.config import Config
+
+    out = []
+    if not _HOOKED[0]:
+        sys.addaudithook(_hook)
+        _HOOKED[0] = True
+    cfg = Config()
+    holder, binds, expect = [], [], []
+    try:
+        for i, spec in enumerate(case["binds"]):
+            if spec.startswith("fd://"):
+                pre = socket.socket(socket.AF_INET, socket.SOCK_STREAM)
+                if spec == "fd://bound":
+                    pre.bind(("127.0.0.1", 0))
+                holder.append(pre)
+                binds.append("fd://%d" % pre.fileno())
+                expect.append(("fd", pre.getsockname()))
+            elif spec.startswith("unix:"):
+                b = (spec % i).format(tmp=tmp)
+                binds.append(b)
+                expect.append(("unix", b[5:]))
+            else:
+                b = spec.format(a=case["alias"])
+                binds.append(b)
+                expect.append(("ip",) + ref_parse(b))
+        _AUDIT["events"].clear()
+        _AUDIT["on"] = True
+        try:
+            socks = cfg._create_sockets(binds, socket.SOCK_STREAM)
+            err = None
+        except Exception as e:
+            socks, err = [], e
+        finally:
+            _AUDIT["on"] = False
+        tally.clause("bind")
+        tally.clause("bind-list")
+        if err is not None:
+            import errno
+
+            if getattr(err, "errno", None) == errno.EADDRINUSE:
+                tally.inconclusive["EADDRINUSE"] += 1
+                return out
+            out.append({"clause": "bind", "sig": "C19.bind-list/error/%s" % type(err).__name__,
+                        "detail": "bind list %r (%r) raised %r" % (case["binds"], binds, err)})
+            return out
+        if len(socks) != len(binds):
+            out.append({"clause": "bind", "sig": "C19.bind-list/count", "detail": "%d sockets for %r" % (len(socks), binds)})
+            return out
+        nbinds = sum(1 for e in expect if e[0] != "fd")
+        if len(_AUDIT["events"]) != nbinds:
+            out.append({"clause": "bind", "sig": "C19.bind-list/bind-calls",
+                        "detail": "%d bind() calls for %r; %d entries need one (inherited descriptors must be adopted untouched): %r" % (
+                            len(_AUDIT["events"]), case["binds"], nbinds, _AUDIT["events"])})
+        for sck, exp, b in zip(socks, expect, binds):
+            name = sck.getsockname()
+            if exp[0] == "fd":
+                ok = name == exp[1] and sck.family == socket.AF_INET
+            elif exp[0] == "unix":
+                ok = sck.family == socket.AF_UNIX and name == exp[1]
+            else:
+                ok = sck.family == exp[1] and name[0] == exp[2][0]
+            if not ok:
+                out.append({"clause": "bind", "sig": "C19.bind-list/%s-entry" % exp[0],
+                            "detail": "entry %r of %r produced a %s socket named %r, expected %r" % (b, case["binds"], sck.family.name, name, exp[1:])})
+        for sck in socks:
+            try:
+                sck.detach() if sck.fileno() in [p.fileno() for p in holder] else sck.close()
+            except Exception:
+                pass
+    finally:
+        for sck in holder:
+            try:
+                sck.close()
             except Exception:
                 pass
     return out
